@@ -123,6 +123,16 @@ YamlChecks(vs, r) ==
                THEN << [k |-> "yaml.roundtrip", i |-> 1, ok |-> FALSE, exp |-> exp, dev |-> "bigint-as-string"] >>
                ELSE << Failed("yaml.roundtrip", 1, exp) >>
 
+\* --yaml-input: whatever YAML document was read, what `gojq --yaml-input -c .` prints must be well-formed JSON.
+\* (The YAML reader is not modelled: a rejected document is not judged.)  A text that is not JSON but would be
+\* if YAML's wider number syntax were allowed is tagged dev = "yaml-number-literal".
+YinChecks(r) ==
+  IF r.status # 0 THEN << Passed("yamlin.rejected", 1) >>
+  ELSE IF ValidUtf8(r.out) /\ DecStream(r.out).ok THEN << Passed("yamlin.wellformed", 1) >>
+  ELSE IF ValidUtf8(r.out) /\ DecStreamYamlNums(r.out).ok
+       THEN << [k |-> "yamlin.wellformed", i |-> 1, ok |-> FALSE, exp |-> <<>>, dev |-> "yaml-number-literal"] >>
+       ELSE << Failed("yamlin.wellformed", 1, <<>>) >>
+
 \* records -----------------------------------------------------------------------
 RecChecks(rec) ==
   LET vs == rec.vs IN
@@ -130,6 +140,7 @@ RecChecks(rec) ==
     \o (IF Has(rec, "cli") THEN FlatF([j \in 1..Len(rec.cli) |-> CliChecks(vs, rec.cli[j], j)], Len(rec.cli)) ELSE <<>>)
     \o (IF Has(rec, "dbg") THEN FlatF([j \in 1..Len(rec.dbg) |-> DbgChecks(vs, rec.dbg[j], j)], Len(rec.dbg)) ELSE <<>>)
     \o (IF Has(rec, "yaml") THEN YamlChecks(vs, rec.yaml) ELSE <<>>)
+    \o (IF Has(rec, "yin") THEN YinChecks(rec.yin) ELSE <<>>)
 
 RecVerdict(rec) ==
   IF Has(rec, "harness_error") \/ ~Has(rec, "vs") THEN [id |-> rec.id, v |-> "tool", n |-> 0, fails |-> <<>>]
